@@ -27,7 +27,28 @@ proof!(c11_exact_5_4, scen::c11::len(5, 4), scen::c11::exact::<5, 4>, 17);
 proof!(c11_exact_0_0, scen::c11::len(0, 0), scen::c11::exact::<0, 0>, 17);
 proof!(c11_exact_3_1, scen::c11::len(3, 1), scen::c11::exact::<3, 1>, 17);
 proof!(c11_exact_2_2, scen::c11::len(2, 2), scen::c11::exact::<2, 2>, 17);
-proof!(dbg_build, scen::c11::len(3, 2), scen::c11::dbg_build, 17);
-proof!(dbg_oracle, scen::c11::len(3, 2), scen::c11::dbg_oracle, 17);
-proof!(dbg_validate, scen::c11::len(3, 2), scen::c11::dbg_validate, 17);
-proof!(dbg_fri, scen::c11::len(3, 2), scen::c11::dbg_fri, 17);
+proof!(c10_generate_0, scen::c10::GEN_LEN, scen::c10::generate::<0>, 40);
+proof!(c10_generate_1, scen::c10::GEN_LEN, scen::c10::generate::<1>, 40);
+proof!(c10_generate_2, scen::c10::GEN_LEN, scen::c10::generate::<2>, 40);
+proof!(c10_generate_3, scen::c10::GEN_LEN, scen::c10::generate::<3>, 40);
+proof!(c10_generate_4, scen::c10::GEN_LEN, scen::c10::generate::<4>, 40);
+proof!(c10_generate_5, scen::c10::GEN_LEN, scen::c10::generate::<5>, 40);
+proof!(c10_points, scen::c10::PTS_LEN, scen::c10::points, 66);
+proof!(c08_step_laws_0, scen::c08::STEP_LEN, scen::c08::step_laws::<0>, 40);
+proof!(c08_step_laws_1, scen::c08::STEP_LEN, scen::c08::step_laws::<1>, 40);
+proof!(c08_step_laws_2, scen::c08::STEP_LEN, scen::c08::step_laws::<2>, 40);
+proof!(c08_step_laws_3, scen::c08::STEP_LEN, scen::c08::step_laws::<3>, 40);
+proof!(c08_n_squeezes_0, scen::c08::NSQ_LEN, scen::c08::n_squeezes::<0>, 40);
+proof!(c08_n_squeezes_1, scen::c08::NSQ_LEN, scen::c08::n_squeezes::<1>, 40);
+proof!(c08_n_squeezes_2, scen::c08::NSQ_LEN, scen::c08::n_squeezes::<2>, 40);
+proof!(c08_n_squeezes_3, scen::c08::NSQ_LEN, scen::c08::n_squeezes::<3>, 40);
+proof!(c08_hist_ass_0, scen::c08::HIST_LEN, scen::c08::history::<289, 0>, 40);
+proof!(c08_hist_sas_1, scen::c08::HIST_LEN, scen::c08::history::<268, 1>, 40);
+proof!(c08_hist_aass_1, scen::c08::HIST_LEN, scen::c08::history::<2313, 1>, 40);
+proof!(c08_hist_vsas_0, scen::c08::HIST_LEN, scen::c08::history::<2146, 0>, 40);
+proof!(c08_hist_uss_0, scen::c08::HIST_LEN, scen::c08::history::<291, 0>, 40);
+proof!(c08_hist_svss_1, scen::c08::HIST_LEN, scen::c08::history::<2324, 1>, 40);
+proof!(c08_hist_avus_2, scen::c08::HIST_LEN, scen::c08::history::<2257, 2>, 40);
+proof!(c08_hist_asas_2, scen::c08::HIST_LEN, scen::c08::history::<2145, 2>, 40);
+proof!(c08_hist_ssuss_2, scen::c08::HIST_LEN, scen::c08::history::<18660, 2>, 40);
+proof!(c08_hist_vvss_0, scen::c08::HIST_LEN, scen::c08::history::<2322, 0>, 40);
